@@ -27,6 +27,9 @@ def extra_patterns():
             mk([(L('x'), ('esc', '\\'), L('y'))]), mk([(star[0], ('esc', '\\'), star[0])]), mk([(L('q'), ('esc', '\\')), star]), mk([(L('x'), ('esc', '\\')), (L('y'),)]), mk([(L('a'), ('esc', '*'), L('b'))]),
             mk([(('ext', '?', ((L('a'),),)), ('star',))]), mk([star, (('ext', '@', ((L('a'),), (L('e'),))),), star]),
             # a pattern that is exactly one literal name: a dangling / looping link named as written is an existing path (lexists)
+            # `.` / `..` written with an escape are still the literal segments `.` / `..`
+            mk([(L('d'),), (L('e'),), (('esc', '.'), ('esc', '.')), star]), mk([(L('d'),), (('esc', '.'),), a]), mk([(L('d'),), (L('.'), ('esc', '.')), star]), mk([gs, (('esc', '.'), L('.')), (L('d'),)]),
+            mk([(L('l'), L('o'), L('o'), L('p'))]), mk([(L('l'), star[0])]), mk([(L('m'), q[0])]), mk([(L('d'),), (L('l'), star[0])]), mk([(L('l'), L('o'), L('o'), L('p'))], trail=True),
             mk([(L('d'), L('a'), L('n'), L('g'))]), mk([(L('l'), L('f'))]), mk([(L('l'), L('d'))]), mk([(L('l'), L('h'))]), mk([(L('f'),)]), mk([(L('n'), L('o'), L('n'), L('e'))])]
 
 
@@ -66,6 +69,8 @@ def run(chk, tier, seed):
                     what = (f'glob({r["pattern"]!r}, flags={r["fl"]}) on tree {r["tree"]}: ' +
                             (f'returns {r[kind][:6]} which the pattern does not denote' if kind == 'extra' else f'misses {r[kind][:6]} which exist and match'))
                     chk.violation(sig, what, replay(r, specs))
+    from checks import fixed_clauses
+    fixed_clauses.newline_names(chk, 'C05')
     chk.rule = ('bounded stand-in for walker correctness: every (tree, path pattern, flag set) case compares set(glob()) (trailing separators ignored) with an '
                 'independent segment-by-segment walk of the real tree using the C02/C03 segment denotations (must <= result <= may); trees: 5 hand-made '
                 '(basic, links incl. dangling/cyclic/hidden, nested same names, case variants, deep symlinks) + seeded random ones of <= 7 entries; '
